@@ -44,5 +44,6 @@ from units_utils import *  # noqa
 from units_air import *  # noqa
 from units_crypto import *  # noqa
 from units_verifier import *  # noqa
+from units_fri import *  # noqa
 
 import props_meta  # noqa
